@@ -136,6 +136,18 @@ def runTrig (wl : WKey → WKey → Bool) : TState → List Ev → Option (List 
   | t, .eos :: es => runTrig wl t.endOfStream es
   | t, .poll :: es => (runTrig wl (t.poll wl).2 es).map ((t.poll wl).1 :: ·)
 
+/-- `validLogB` in one pass (running multiplicity per row class); used by the oracles only to decide whether the
+    property speaks about a generated input -/
+def validFast (log : List Rec) : Bool :=
+  let rec go (seen : List (Row × Int)) : List Rec → Bool
+    | [] => true
+    | r :: rs =>
+      let d : Int := if r.retr then -1 else 1
+      match seen.find? fun e => rowEq e.1 r.vals with
+      | some e => if e.2 + d < 0 then false else go (seen.map fun x => if rowEq x.1 r.vals then (x.1, x.2 + d) else x) rs
+      | none => if d < 0 then false else go ((r.vals, d) :: seen) rs
+  go [] log
+
 def modelGb (toks : List String) : String :=
   match parseGb toks with
   | none => "bad-op"
